@@ -170,6 +170,7 @@ class LoopSpec:
         self.decreases = None
         self.hints = []
         self.finally_ = []       # ('check'|'hint', ast expr, text): evaluated at the end of every body path
+        self.entry_ = []         # same, evaluated once where the loop is entered (before the invariants are established)
 
 
 class Contract:
@@ -316,6 +317,8 @@ def _spec_stmt(st, c):
                     ls.hints.append((sub.value.args[0], _txt(sub.value.args[0])))
                 elif fn in ('finally_check', 'finally_hint'):
                     ls.finally_.append((fn[8:], sub.value.args[0], _txt(sub.value.args[0])))
+                elif fn in ('entry_check', 'entry_hint'):
+                    ls.entry_.append((fn[6:], sub.value.args[0], _txt(sub.value.args[0])))
                 else:
                     raise SyntaxError('unknown loop clause %s' % fn)
         c.loops[ordinal] = ls
